@@ -56,13 +56,45 @@ def _paths(cfg, atom_eval):
     return uniq
 
 
+class _Subst(ast.NodeTransformer):
+    def __init__(self, alias):
+        self.alias = alias
+
+    def visit_Name(self, n):
+        if isinstance(n.ctx, ast.Load) and n.id in self.alias:
+            return self.alias[n.id]
+        return n
+
+
+def _aliases(f):
+    """locals assigned exactly once from a plain attribute chain / name (copy propagation for the atoms)"""
+    defs = {}
+    for s in walk_nodes(f.node.body, (ast.Assign, ast.AugAssign)):
+        for t in (s.targets if isinstance(s, ast.Assign) else [s.target]):
+            if isinstance(t, ast.Name):
+                defs.setdefault(t.id, []).append(s)
+    out = {}
+    for k, v in defs.items():
+        if len(v) == 1 and isinstance(v[0], ast.Assign) and isinstance(v[0].value, (ast.Attribute, ast.Name)):
+            out[k] = v[0].value
+    return out
+
+
 def run(ctx, rep):
+    import copy
     prog, res = ctx.prog, ctx.res
     f = prog.own_method("SimulatedOrder", "profit")
     cfg = ctx.cfg(f)
+    alias = _aliases(f)
 
     def make_eval(side, kind, status, ndh, rel, line_none):
         def ev(e):
+            v = ev0(e)
+            if v is None and alias:
+                v = ev0(_Subst(alias).visit(copy.deepcopy(e)))
+            return v
+
+        def ev0(e):
             t = utext(e)
             if t == "self.side == 'BACK'":
                 return side == "BACK"
